@@ -560,7 +560,15 @@ func (in *Interp) prepareCall(fr *frame, call *ssa.CallCommon) (fn Value, args [
 						}
 						return mkStr("f")
 					case "Size":
-						return mkInt(types.Int64, 0)
+						return mkInt(types.Int64, fi.size)
+					case "Mode":
+						switch {
+						case fi.dir:
+							return Int{K: types.Uint32, C: 1<<31 | 0755} // fs.ModeDir
+						case fi.link:
+							return Int{K: types.Uint32, C: 1<<27 | 0777} // fs.ModeSymlink
+						}
+						return Int{K: types.Uint32, C: 0644}
 					}
 					panic(engineErr("UNSUPPORTED os.FileInfo method " + name))
 				}}
@@ -583,7 +591,15 @@ func (in *Interp) prepareCall(fr *frame, call *ssa.CallCommon) (fn Value, args [
 						if de.dir {
 							return Int{K: types.Uint32, C: 1 << 31} // fs.ModeDir
 						}
+						if de.link {
+							return Int{K: types.Uint32, C: 1 << 27} // fs.ModeSymlink
+						}
 						return Int{K: types.Uint32, C: 0}
+					case "Info":
+						if fr.in.fs != nil && de.path != "" {
+							return fr.in.fs.lstat(fr.in, fr, mkStr(de.path))
+						}
+						return Tuple{Iface{T: fileInfoMarker, V: Native{V: fakeFileInfo{name: de.name, dir: de.dir, link: de.link}}}, nilError()}
 					}
 					panic(engineErr("UNSUPPORTED os.DirEntry method " + name))
 				}}
